@@ -20,3 +20,4 @@ import SpoxModel.Props.C04
 #print axioms C04.build_valid
 #print axioms C04.build_correct
 #print axioms C04.build_valid_checked
+#print axioms C04.build_kind_parametric
